@@ -333,6 +333,7 @@ RunResult run(J const &plan) {
         due.push_back({samp[i].first, {mean, std::sqrt(var)}});
       }
       if (c.periodic) continue;   // (mean of angles across the boundary is not a textbook quantity)
+      if (slept[pre].count(c.name)) continue;   // a variable that slept (C13 finding) kept or lost samples in ways the textbook does not describe
       bool have = fs().get(pre + "." + c.name + ".runave.traj", rt);
       if (!have) { if (!due.empty()) res.fail("running_average", "file_missing", pre.substr(pre.rfind('/') + 1) + "." + c.name + ".runave.traj does not exist although " + std::to_string(due.size()) + " lines were due"); continue; }
       std::istringstream rs(rt); size_t q = 0;
